@@ -404,6 +404,19 @@ def main():
     except Exception as e:
         status['impr'] = 'failed: %s' % e
     try:
+        import skeltrans
+        g6 = dict(golden)
+        txt, kst = skeltrans.lean_file(g6)
+        changed |= write_if_changed(os.path.join(GEN, 'Skel.lean'), txt)
+        for k_, v_ in kst.items():
+            status['functions']['skel_' + k_] = dict(v_, lean='Skel.' + k_, params=[], bools=[], selfattrs=[], absparams=[], nret=1, abscalls=[])
+        if update:
+            for k_, v_ in g6.items():
+                if k_.startswith('skel:'):
+                    golden[k_] = v_
+    except Exception as e:
+        status['skel'] = 'failed: %s' % e
+    try:
         import strtrans
         g4 = dict(golden)
         txt, sst = strtrans.lean_file(g4)
